@@ -292,8 +292,11 @@ def eval_carnot(case) -> Outcome:
             return out
         out.fail("C18.carnot_finite", f"non-finite helper output: Q_cond={qc}, Q_evap={qe}, work={w}")
         return out
+    if (qe < -1e-12).any() or (qc < -1e-12).any():
+        out.fail("C18.carnot_signs", f"negative duty: work={w!r}, Q_cond={qc}, Q_evap={qe}")
+        return out
     if float(qe.sum()) <= 0:
-        out.skip = "no-evaporator-duty-available"
+        out.skip = "no-evaporator-duty-available"  # every evaporator level found no heat in the source profile (all exactly zero)
         return out
     out.nontrivial = True
     out.labels.add("condenser-limited" if abs(qc.sum() - Q_cond0.sum()) <= 1e-9 * Q_cond0.sum() else "evaporator-limited")
